@@ -37,7 +37,7 @@ def tasks(tier, seed, checks=("c02",), canaries=CANARIES):
     out = []
     sl = option_slice(q)
     for i, (rule, o) in enumerate(sl):
-        fams = [fams3[i % len(fams3)], fams3[(i + 2) % len(fams3)]] if q else fams3
+        fams = [fams3[i % len(fams3)], fams3[(i + 2) % len(fams3)]] if q else [fams3[(i + j) % len(fams3)] for j in range(3)]
         sizes = (1, 2, 3) if q else None
         ms = (1,) if rule == "IRV" else ((1, 2) if q else (1, 2, 3))
         for sup in supports_of(fams, sizes=sizes):
